@@ -50,6 +50,7 @@ TOTAL = {
     "<impl char>::is_ascii_uppercase": "pure",
     "PartialEq::eq": "derived/primitive", "PartialEq::ne": "derived/primitive", "PartialOrd::lt": "primitive", "PartialOrd::le": "primitive",
     "PartialOrd::gt": "primitive", "PartialOrd::ge": "primitive", "PartialOrd::partial_cmp": "primitive/derived",
+    "RangeInclusive::<Idx>::new": "pure", "RangeInclusive::<Idx>::contains": "pure", "Range::<Idx>::contains": "pure",
     "mem::size_of": "const", "mem::swap": "pure", "mem::take": "pure", "mem::replace": "pure",
     # iterator adapters: lazy constructors; consumers run the closures (analysed as their own bodies) and finite sources
     "Iterator::next": "advances a std iterator", "Iterator::chain": "lazy", "Iterator::map": "lazy", "Iterator::collect": "alloc only",
